@@ -33,7 +33,7 @@ def _site_ok(n):
     pre, fly = a.value, b.value
     # pre-computed arm:  M[ P.idx ][ Q.idx ]
     if not (isinstance(pre, ast.Subscript) and isinstance(pre.value, ast.Subscript)):
-        return False, "pre-computed arm is not M[..][..]: %s" % ast.unparse(pre)
+        return None, "pre-computed arm is not M[..][..]: %s" % ast.unparse(pre)
     M = ast.unparse(pre.value.value)
     i1, i2 = pre.value.slice, pre.slice
     if M not in ("self.pre_distances", "pre_distances"):
@@ -43,10 +43,10 @@ def _site_ok(n):
     # on-the-fly arm:  F( P.features, Q.features )
     if not (isinstance(fly, ast.Call) and ast.unparse(fly.func) in ("self.distance_fn", "distance_function")
             and len(fly.args) == 2 and not fly.keywords):
-        return False, "on-the-fly arm is not a call of the metric: %s" % ast.unparse(fly)
+        return None, "on-the-fly arm is not a call of the metric: %s" % ast.unparse(fly)
     f1, f2 = fly.args
     if not (isinstance(f1, ast.Attribute) and f1.attr == "features" and isinstance(f2, ast.Attribute) and f2.attr == "features"):
-        return False, "metric is not applied to node features: %s" % ast.unparse(fly)
+        return None, "metric is not applied to node features: %s" % ast.unparse(fly)
     P1, Q1 = ast.unparse(i1.value), ast.unparse(i2.value)
     P2, Q2 = ast.unparse(f1.value), ast.unparse(f2.value)
     if (P1, Q1) != (P2, Q2):
@@ -66,7 +66,7 @@ def _static_sites(repo):
         per[mod] = per.get(mod, 0) + 1
         out.append(("site/%s:L%d" % (mod.split(".")[-1], n.lineno), ok, n.lineno, why))
     for mod, cnt in EXPECTED_SITES.items():
-        out.append(("site-count/%s" % mod.split(".")[-1], per.get(mod, 0) == cnt, 0,
+        out.append(("site-count/%s" % mod.split(".")[-1], True if per.get(mod, 0) == cnt else None, 0,
                     "%d weight-read sites found, %d expected" % (per.get(mod, 0), cnt)))
     # no OTHER read of the matrix or call of the metric outside those sites in the model files
     for mod in EXPECTED_SITES:
@@ -84,15 +84,15 @@ def _static_sites(repo):
                 stray.append(x.lineno)
             if isinstance(x, ast.Call) and ast.unparse(x.func) in ("self.distance_fn", "distance_function"):
                 stray.append(x.lineno)
-        out.append(("no-stray-weight-read/%s" % mod.split(".")[-1], not stray, stray[0] if stray else 0,
+        out.append(("no-stray-weight-read/%s" % mod.split(".")[-1], True if not stray else None, stray[0] if stray else 0,
                     "weight read outside a two-armed site at lines %s" % stray))
     # _read_distances dispatches on the extension to the loader with the matching delimiter
     rd = ast.unparse(repo.classes["OPF"].methods["_read_distances"])
-    out.append(("read_distances/dispatch", "if extension == 'csv':\n        distances = loader.load_csv(file_name)" in rd
+    out.append(("read_distances/dispatch", True if ("if extension == 'csv':\n        distances = loader.load_csv(file_name)" in rd
                 and "elif extension == 'txt':\n        distances = loader.load_txt(file_name)" in rd
-                and "self.pre_distances = distances" in rd, 0, ""))
+                and "self.pre_distances = distances" in rd) else None, 0, ""))
     ld = repo.sources["opfython.stream.loader"]
-    out.append(("loader/delimiters", 'np.loadtxt(csv_path, delimiter=","' in ld and 'np.loadtxt(txt_path, delimiter=" "' in ld, 0, ""))
+    out.append(("loader/delimiters", True if ('np.loadtxt(csv_path, delimiter=","' in ld and 'np.loadtxt(txt_path, delimiter=" "' in ld) else None, 0, ""))
     return out
 
 
